@@ -257,7 +257,10 @@ func MultiSigner(m int, ks []*keys.PrivateKey, pubs keys.PublicKeys) neotest.Sig
 }
 
 // NewWorld creates an in-memory chain whose committee is n deterministic keys.
-func NewWorld(n int) *World {
+func NewWorld(n int) *World { return NewWorldOnStore(n, storage.NewMemoryStore()) }
+
+// NewWorldOnStore is NewWorld on a (possibly pre-populated) store.
+func NewWorldOnStore(n int, st storage.Store) *World {
 	w := &World{T: &fakeT{}, N: n, Contracts: map[string]*Deployed{}, Accts: map[string]*Account{}, Signers: map[util.Uint160]neotest.Signer{}}
 	for i := 0; i < n; i++ {
 		w.Keys = append(w.Keys, DetKey(0x22, i))
@@ -273,7 +276,7 @@ func NewWorld(n int) *World {
 		StandbyCommittee: sc, ValidatorsCount: 1, VerifyTransactions: true,
 		MaxValidUntilBlockIncrement: 100000,
 	}}
-	bc, err := core.NewBlockchain(storage.NewMemoryStore(), cfg, zap.NewNop())
+	bc, err := core.NewBlockchain(st, cfg, zap.NewNop())
 	if err != nil {
 		panic(err)
 	}
